@@ -570,6 +570,10 @@ class Configuration(_Configuration):
         fname = self._configurations.pop(0)
         self._configurations.append(fname)
 
+        # start from a clean parser: a reload which failed leaves its scope, its sections and
+        # the neighbors it had already seen behind, and every later reload was then refused
+        self._cleanup()
+
         # clearing the current configuration to be able to re-parse it
         self._clear()
 
